@@ -324,6 +324,51 @@ func runC03(w *World, r *Report, tier string) {
 	// ---- R3 reply classification
 	c03Replies(w, r, fErr)
 
+	// ---- R3 (stream open): InitStream reports success only for <stream:stream> or the websocket <open/>
+	{
+		is := w.Func("stanza.InitStream")
+		nsStream, nsFraming := w.ConstString("stanza.NSStream"), w.ConstString("stanza.NSFraming")
+		bad := ""
+		nOK := 0
+		te := newTokenEngine(w)
+		err := walkPaths(entryLoc(is), nil, nil, 50000, func(path []ssa.Instruction, end pathEnd) {
+			ret, ok := path[len(path)-1].(*ssa.Return)
+			if !ok || end == endCycle || len(ret.Results) != 2 {
+				return
+			}
+			if te.errorReturn(ret, path) {
+				return
+			}
+			nOK++
+			eqField := func(field, want string) bool {
+				return pathAsserts(path, func(c ssa.Value, truth bool) bool {
+					bo, ok := c.(*ssa.BinOp)
+					if !ok || (bo.Op != token.EQL && bo.Op != token.NEQ) || (bo.Op == token.EQL) != truth {
+						return false
+					}
+					for _, pr := range [][2]ssa.Value{{bo.X, bo.Y}, {bo.Y, bo.X}} {
+						s, isS := stringConst(pr[1])
+						fp := fieldPath(pr[0])
+						if isS && s == want && len(fp) > 0 && fp[len(fp)-1].Name() == field {
+							return true
+						}
+					}
+					return false
+				})
+			}
+			isStream := eqField("Space", nsStream) && eqField("Local", "stream")
+			isOpen := eqField("Space", nsFraming) && eqField("Local", "open")
+			if !isStream && !isOpen {
+				bad = "the stream is considered open although the first element is neither <stream:stream> nor the websocket <open/> (return at " + w.ipos(ret) + ")"
+			}
+		})
+		if err != nil {
+			r.Undecided("R3", "stanza.InitStream#classification", w.pos(is.Pos()), err.Error())
+		} else {
+			r.Check(bad == "" && nOK > 0, "R3", "stanza.InitStream#classification", w.pos(is.Pos()), bad, fmt.Sprintf("%d success path(s), each after {streams}stream or {framing}open", nOK))
+		}
+	}
+
 	// ---- R5 failures are reported: the error of each connection step is what the entry point returns
 	r.Rule("R5", "failures are reported: in Client.connect, Client.Connect and Client.Resume the error of transport.Connect(), NewSession() and connect() is tested, and its failure edge never leads to a nil return")
 	for _, spec := range []struct {
